@@ -56,6 +56,13 @@ ASSUMPTIONS = [
     "recorded whether the client decides the same way (the statement leaves 'fail or fall back' open for an unusable "
     "cookie, so a client that falls back on ENOENT but fails on EACCES still satisfies it; seeded change C04-v is "
     "therefore deliberately not reported)",
+    "COOKIEFILE spellings: besides the plain path, spellings that only the kernel resolves are advertised (a '..' "
+    "after a symlinked directory, '/./', '//', 'sub/..', a symlinked directory); the cookie is 'usable' iff opening "
+    "the advertised string yields 32 bytes",
+    "block D: the cookie file (valid at first) is replaced by wrong-length content immediately before the client's "
+    "k-th file-system call naming it (builtins.open / os.stat / os.lstat / os.open wrapped during the run; k = 1..3); "
+    "the server's cookie follows the file. If the client never makes a k-th call the run is an ordinary valid-cookie "
+    "run; otherwise only 'the wrong-length content is never used' and the length-agnostic clauses are demanded",
     "a protocol built WITHOUT a password provider (TorControlProtocol(), TorControlProtocol(None), "
     "TorProtocolFactory(password_function=None)) has no password method at all: an advertised HASHEDPASSWORD is then "
     "skipped, it is not an 'unusable method' that excuses failing - the next advertised usable method (NULL) must be "
@@ -107,6 +114,8 @@ FLOORS = {'quick': {'evaluations': 550,
            'ready_successes_checked': 75,
            'escaped_paths_read': 160,
            'no_provider_skips_password_checks': 4,
+           'cookie_replaced_under_the_client': 14,
+           'paths_only_the_kernel_resolves_read': 70,
            'unreadable_policy_pairs_compared': 90,
            'reach:txtorcon.torcontrolprotocol:TorControlProtocol._do_authenticate': 520,
            'reach:txtorcon.torcontrolprotocol:TorControlProtocol._safecookie_authchallenge': 150,
@@ -128,6 +137,8 @@ FLOORS = {'quick': {'evaluations': 550,
               'ready_successes_checked': 360,
               'escaped_paths_read': 1400,
               'no_provider_skips_password_checks': 13,
+              'cookie_replaced_under_the_client': 36,
+              'paths_only_the_kernel_resolves_read': 550,
               'unreadable_policy_pairs_compared': 280,
               'reach:txtorcon.torcontrolprotocol:TorControlProtocol._do_authenticate': 3500,
               'reach:txtorcon.torcontrolprotocol:TorControlProtocol._safecookie_authchallenge': 1250,
@@ -227,6 +238,14 @@ def enumerate_cases():
             for p in ("none", "str", "bytes", "deferred-late", "coroutine-late", "deferred-late-fail"):
                 for f in gf:
                     out.append(("C", {"methods": m, "cookie": c, "provider": p, "fault": f}))
+    for m in lists:                                            # block D: cookie file replaced between two fs calls
+        if "SAFECOOKIE" not in m and "COOKIE" not in m:
+            continue
+        for p in ("none", "str"):
+            for k in (1, 2, 3):
+                for newlen in ("len0", "len31", "len64"):
+                    out.append(("D", {"methods": m, "cookie": newlen, "provider": p, "fault": None,
+                                      "swap": [k]}))
     return out
 
 
@@ -347,7 +366,7 @@ class Scratch(object):
         self.root = tempfile.mkdtemp(prefix="vf-c04-")
         self.n = 0
 
-    def make(self, cookie_kind, flavour, content):
+    def make(self, cookie_kind, flavour, content, spelling="plain"):
         """-> (path advertised in COOKIEFILE | None, directory to remove afterwards | None)"""
         if cookie_kind == "absent":
             return None, None
@@ -357,6 +376,39 @@ class Scratch(object):
         d = os.path.join(top, dname)
         os.makedirs(d)
         path = os.path.join(d, fname)
+        if cookie_kind not in ("notdir",) and spelling != "plain":
+            # another spelling of the same file; only the kernel may resolve it (a lexical
+            # normalisation of "lnk/.." after a symlink names a different, non-existent file)
+            if spelling == "symlink-dotdot":
+                os.makedirs(os.path.join(d, "data", "tor", "run"))
+                os.symlink(os.path.join(d, "data", "tor", "run"), os.path.join(d, "run"))
+                real = os.path.join(d, "data", "tor", fname)
+                adv = os.path.join(d, "run", "..", fname)
+            elif spelling == "dot":
+                real, adv = path, d + "/./" + fname
+            elif spelling == "double-slash":
+                real, adv = path, d + "//" + fname
+            elif spelling == "dir-dotdot":
+                os.mkdir(os.path.join(d, "sub"))
+                real, adv = path, d + "/sub/../" + fname
+            elif spelling == "symlinked-dir":
+                os.makedirs(os.path.join(d, "real"))
+                os.symlink("real", os.path.join(d, "lnk"))
+                real, adv = os.path.join(d, "real", fname), os.path.join(d, "lnk", ".", fname)
+            else:
+                raise ValueError(spelling)
+            if cookie_kind == "dir":
+                os.mkdir(real)
+            elif cookie_kind == "loop":
+                os.symlink(real, real)
+            elif cookie_kind != "missing":
+                with open(real, "wb") as f:
+                    f.write(content)
+                if cookie_kind == "perm":
+                    os.chmod(real, 0)
+            self.real = real
+            return adv, top
+        self.real = path
         if cookie_kind == "missing":
             pass
         elif cookie_kind == "dir":
@@ -433,6 +485,69 @@ def content_for(case):
     return cookie, pw
 
 
+class FsWatcher(object):
+    """counts the client's file-system calls that name the cookie file (open / os.stat / os.lstat /
+    os.open, hence also os.path.getsize/exists/isfile) and replaces the file's content just before
+    the k-th of them - what a Tor rewriting its cookie, or a truncated write, looks like to a client
+    that touches the file more than once"""
+    def __init__(self, target, k, new_content):
+        self.target = os.path.normpath(target)
+        self.k = k
+        self.new = new_content
+        self.n = 0
+        self.fired = False
+        self.saved = None
+        self.on_fire = None
+
+    def _hit(self, arg):
+        try:
+            a = os.fspath(arg)
+        except TypeError:
+            return False
+        if isinstance(a, bytes):
+            a = a.decode("latin1")
+        return os.path.normpath(a) == self.target
+
+    def _before(self, arg):
+        if self._hit(arg):
+            self.n += 1
+            if self.n == self.k and not self.fired:
+                self.fired = True
+                with self.saved["open"](self.target, "wb") as f:
+                    f.write(self.new)
+                if self.on_fire:
+                    self.on_fire()
+
+    def install(self):
+        import builtins
+        self.saved = {"open": builtins.open, "stat": os.stat, "lstat": os.lstat, "osopen": os.open}
+        sv = self.saved
+
+        def w_open(file, *a, **kw):
+            self._before(file)
+            return sv["open"](file, *a, **kw)
+
+        def w_stat(path, *a, **kw):
+            self._before(path)
+            return sv["stat"](path, *a, **kw)
+
+        def w_lstat(path, *a, **kw):
+            self._before(path)
+            return sv["lstat"](path, *a, **kw)
+
+        def w_osopen(path, *a, **kw):
+            self._before(path)
+            return sv["osopen"](path, *a, **kw)
+        builtins.open, os.stat, os.lstat, os.open = w_open, w_stat, w_lstat, w_osopen
+
+    def remove(self):
+        import builtins
+        if self.saved:
+            builtins.open, os.stat, os.lstat, os.open = (self.saved["open"], self.saved["stat"],
+                                                         self.saved["lstat"], self.saved["osopen"])
+            self.saved = None
+
+
 def build_protocol(case, prov):
     """the real protocol object, created the way applications create it"""
     from txtorcon import TorControlProtocol, TorProtocolFactory
@@ -463,11 +578,18 @@ def execute(case, ctx):
     """run one case to quiescence; -> observation dict"""
     cookie, pw = content_for(case)
     kind = case["cookie"]
-    path, top = ctx.scratch.make(kind, case.get("path", "plain"), cookie)
+    swap = case.get("swap")
+    old_cookie = None
+    if swap:
+        # the file holds a valid cookie at first; `cookie` is what it holds after the replacement
+        old_cookie = bytes((b ^ 0x5a) for b in (cookie * 32)[:32]) if cookie else bytes(range(1, 33))
+    path, top = ctx.scratch.make("valid" if swap else kind, case.get("path", "plain"),
+                                 old_cookie if swap else cookie, case.get("spelling", "plain"))
+    watcher = FsWatcher(ctx.scratch.real, swap[0], cookie) if swap else None
     try:
         fault = case.get("fault")
         style = "tor" if case.get("path") == "ctrl" else case.get("quote", "spec")
-        tor = AuthTor(auth_methods=list(case["methods"]), cookie=cookie, cookiefile=path,
+        tor = AuthTor(auth_methods=list(case["methods"]), cookie=old_cookie if swap else cookie, cookiefile=path,
                       password=pw.encode("ascii"), fault=tuple(fault) if fault else None, quote_style=style)
         prov = Provider(case["provider"], pw)
         proto = build_protocol(case, prov)
@@ -480,6 +602,9 @@ def execute(case, ctx):
         ctx.logcap.take()
         harness_errors = []
         try:
+            if watcher:
+                watcher.on_fire = lambda: setattr(tor, "cookie", cookie)   # the server's cookie is what the file holds
+                watcher.install()
             link.connect()
             link.pump()
             rounds = 0
@@ -494,7 +619,14 @@ def execute(case, ctx):
                 link.pump()
         except Exception as e:
             harness_errors.append(repr(e))
+        finally:
+            if watcher:
+                watcher.remove()
+        if watcher and not watcher.fired:
+            cookie = old_cookie                       # the replacement never happened
         return {"tor": tor, "link": link, "prov": prov, "calls": calls, "outcome": outcome,
+                "old_cookie": old_cookie, "fs_calls": watcher.n if watcher else None,
+                "swap_fired": bool(watcher and watcher.fired),
                 "cookie": cookie, "pw": pw, "logged": ctx.logcap.take(), "harness_errors": harness_errors,
                 "path": path, "proto": proto}
     finally:
@@ -507,7 +639,7 @@ def classify_token(tok, case, obs):
         return "UNPARSABLE"
     if tok == b"":
         return "NULL"
-    if tok == obs["cookie"]:
+    if tok == obs["cookie"] or (obs.get("old_cookie") is not None and tok == obs["old_cookie"]):
         return "COOKIE"
     pt = obs["prov"].token()
     if pt is not None and tok == pt:
@@ -518,6 +650,15 @@ def classify_token(tok, case, obs):
 def judge(case, obs, rec, ctx):
     """evaluate every C04 clause applicable to this execution; -> (list of failed clauses, nontrivial)"""
     tor, link, prov = obs["tor"], obs["link"], obs["prov"]
+    orig_case = case
+    if case.get("swap"):
+        rec.count("cookie_replacement_runs")
+        rec.seen("cookie_replacement", "before fs call %d of %s -> %s" % (
+            case["swap"][0], obs["fs_calls"], "replaced" if obs["swap_fired"] else "client never made that call"))
+        if obs["swap_fired"]:
+            rec.count("cookie_replaced_under_the_client")
+        else:
+            case = dict(case, cookie="valid")          # the file stayed what it was: a valid cookie
     fault = case.get("fault")
     ftag = fault_tag(fault)
     cookie = obs["cookie"]
@@ -530,7 +671,10 @@ def judge(case, obs, rec, ctx):
              "ready_calls": [(k, s) for (k, s) in obs["calls"]],
              "provider_calls": prov.calls, "cookiefile": obs["path"]}
         d.update(detail)
-        rec.violation(clause, cls, d, case)
+        if orig_case.get("swap"):
+            d["cookie_file_replaced_before_fs_call"] = orig_case["swap"][0] if obs["swap_fired"] else None
+            d["client_fs_calls_on_cookie"] = obs["fs_calls"]
+        rec.violation(clause, cls, d, orig_case)
 
     if obs["harness_errors"]:
         V("harness-error", "fault=" + ftag, {"errors": obs["harness_errors"]})
@@ -627,7 +771,8 @@ def judge(case, obs, rec, ctx):
         if used is None and len(cookie) > 0 and on_wire(cookie, wire):
             used = "cookie-bytes-on-wire"
         if used:
-            V("wrong-length-cookie-used", "cookie=%s/how=%s" % (case["cookie"], used), {"cookie_len": len(cookie)})
+            V("wrong-length-cookie-used", "cookie=%s/how=%s%s" % (case["cookie"], used, (
+                "/replaced-before-fs-call-%d" % case["swap"][0]) if case.get("swap") else ""), {"cookie_len": len(cookie)})
 
     # ---- clause 3: SAFECOOKIE discipline -------------------------------------------------------------
     n_auth_lines = sum(1 for (l, _) in lines if l.split(" ", 1)[0].upper() == "AUTHENTICATE")
@@ -668,6 +813,9 @@ def judge(case, obs, rec, ctx):
     if case["cookie"] == "valid" and obs["path"] is not None and case.get("path", "plain") != "plain" \
             and attempt in ("SAFECOOKIE", "COOKIE"):
         rec.count("escaped_paths_read")
+    if case["cookie"] == "valid" and case.get("spelling") in ("symlink-dotdot", "symlinked-dir") \
+            and attempt in ("SAFECOOKIE", "COOKIE"):
+        rec.count("paths_only_the_kernel_resolves_read")
 
     # ---- clause 4: the ready notification, exactly once, success iff everything succeeded ------------
     calls = obs["calls"]
@@ -785,6 +933,8 @@ def run_case(case, rec, ctx):
 # ---------------------------------------------------------------------------
 # driver interface
 
+SPELLINGS = ["plain", "plain", "symlink-dotdot", "symlink-dotdot", "dot", "double-slash", "dir-dotdot",
+             "symlinked-dir"]
 CONSTRUCT_NONE = ["arg-none", "no-arg", "factory-none"]      # the three ways of having no provider
 CONSTRUCT_SOME = ["direct", "factory"]
 CHUNKINGS = [[1 << 30], [1], [7], None]        # None = a generated cycle
@@ -800,6 +950,7 @@ def materialise(idx, base, seed):
     ch = rnd.choice(CHUNKINGS)
     case["chunking"] = ch if ch is not None else gen.chunking(rnd)
     case["construct"] = rnd.choice(CONSTRUCT_NONE if base["provider"] == "none" else CONSTRUCT_SOME)
+    case["spelling"] = "plain" if base.get("swap") else rnd.choice(SPELLINGS)
     return case
 
 
@@ -811,6 +962,8 @@ def stratum(block, base):
         return ("A", adv, base["cookie"], provider_class(base["provider"]))
     if block == "B":
         return ("B", fault_tag(base["fault"]), base["provider"])
+    if block == "D":
+        return ("D", adv, base["cookie"], base["swap"][0])
     return ("C", fault_tag(base["fault"]), best, blocked, base["provider"] in ("deferred-late", "coroutine-late",
                                                                               "deferred-late-fail"))
 
@@ -870,8 +1023,8 @@ def replay(case, rec):
 def plan(tier, seed):
     n = 16
     if tier == "quick":
-        fr = {"A": 0.3, "B": 0.15, "C": 0.1}
+        fr = {"A": 0.3, "B": 0.15, "C": 0.1, "D": 0.3}
     else:
-        fr = {"A": 1.0, "B": 1.0, "C": 1.0}
+        fr = {"A": 1.0, "B": 1.0, "C": 1.0, "D": 1.0}
     return [{"nshards": n, "index": i, "fractions": fr,
              "timeout_s": 600 if tier == "quick" else 3000} for i in range(n)]
